@@ -101,6 +101,8 @@ def c15(F, R, tier):
 def c05(F, R, tier):
     import c05 as mod
     mod.check(F, R)
+    import c14
+    c14.canonical_start(F, R)
 
 
 @prop("C04",
@@ -112,6 +114,8 @@ def c04(F, R, tier):
     mod.check(F, R)
     import c15
     c15.check(F, R)
+    import c14
+    c14.canonical_start(F, R)
 
 
 @prop("C17",
@@ -146,6 +150,10 @@ def c19(F, R, tier):
 def c20(F, R, tier):
     import c20 as mod
     mod.check(F, R)
+    # good_lp derives the sign convention of its duals from the direction flag: the bridge must hand over
+    # the model's own direction (Max -> Maximisation), not a re-normalised objective
+    import c04
+    c04.t_map_direction(F, R)
 
 
 @prop("C10",
